@@ -16,6 +16,7 @@ import Driver.FamAutomaton
 import Driver.FamLoopRange
 import Driver.FamCharPartition
 import Driver.FamLiteral
+import Driver.FamMinimize
 
 open Driver
 
@@ -41,6 +42,7 @@ def dispatch (fam op : String) (args : List String) : Option Reply :=
   | "lr" => FamLoopRange.handle op args
   | "cp" => FamCharPartition.handle op args
   | "lit" => FamLiteral.handle op args
+  | "min" => FamMinimize.handle op args
   | _ => none
 
 def splitArrow (line : String) : Option (String × String) :=
